@@ -21,15 +21,31 @@ static Fields gen(Tape &t) {
 }
 
 struct Lit { bool inside = false; size_t b = 0, e = 0; };
+// The exemption of the statement: "only when that character [the one at L] lies inside a bracketed IP literal may the
+// position point elsewhere within the same literal". A literal begins at '[' and extends over the characters an IP literal
+// can consist of (unreserved, sub-delims, ':') up to and including its ']'; a literal that is never closed ends where
+// that run ends ('/', '?', '#', '@', '%', '[', a character beyond ASCII ... cannot be inside one). The character at L is
+// inside the literal if it belongs to that stretch - or is the very character that ends an unclosed one, which is where
+// the literal turns out to be broken.
+static bool literal_char(char32_t c) {
+  if (c >= 0x80) return false;
+  if ((c >= 'a' && c <= 'z') || (c >= 'A' && c <= 'Z') || (c >= '0' && c <= '9')) return true;
+  return c != 0 && strchr("-._~!$&'()*+,;=:", (int)c) != nullptr;
+}
 static Lit literal_latitude(const u32s &s, size_t L) {
   Lit l;
+  size_t b = 0;
+  bool found = false;
   for (size_t i = L; i-- > 0;) {
     if (s[i] == ']') return l;
-    if (s[i] == '[') { l.inside = true; l.b = i; break; }
+    if (s[i] == '[') { found = true; b = i; break; }
   }
-  if (!l.inside) return l;
-  l.e = s.size();
-  for (size_t i = L; i < s.size(); i++) if (s[i] == ']') { l.e = i; break; }
+  if (!found) return l;
+  size_t e = b + 1;
+  while (e < s.size() && literal_char(s[e])) e++;
+  // e: the closing bracket, or the first character that cannot be part of a literal, or the end of the text
+  if (L > e) return l;  // the literal was over before L
+  l.inside = true; l.b = b; l.e = e < s.size() ? e : s.size();
   return l;
 }
 
